@@ -1159,6 +1159,50 @@ theorem c12_root_lookup (N : Nat) (keys : List Nat) (k : Nat) (hN : 1 ≤ N) :
     simp only [genNaryKeys, h, if_false]
     exact c12_nary_is_complete N keys.length 0 hN this (by omega)
 
+/-- what `swapAt keys 0 r` is, entry by entry -/
+private theorem swapAt_zero_getD (keys : List Nat) (r : Nat) (hr : r < keys.length) :
+    (swapAt keys 0 r).length = keys.length ∧ (swapAt keys 0 r).getD 0 0 = keys.getD r 0 ∧
+    (swapAt keys 0 r).getD r 0 = keys.getD 0 0 ∧
+    ∀ p, p ≠ 0 → p ≠ r → (swapAt keys 0 r).getD p 0 = keys.getD p 0 := by
+  have h0 : 0 < keys.length := by omega
+  refine ⟨by simp [swapAt], ?_, ?_, ?_⟩
+  · by_cases h : r = 0
+    · subst h; simp [swapAt, List.getD_eq_getElem?_getD, h0]
+    · have : ¬ (r = 0) := h
+      simp [swapAt, List.getD_eq_getElem?_getD, h0, hr, this]
+  · simp [swapAt, List.getD_eq_getElem?_getD, h0, hr]
+  · intro p hp0 hpr
+    simp [swapAt, List.getD_eq_getElem?_getD, Ne.symm hp0, Ne.symm hpr]
+
+/-- **`ro.NewRosterWithRoot(root)` followed by `GenerateNaryTree(N)`** (the documented way to a tree whose root is the
+roster's first entry): a root outside the roster yields no roster and no tree; a member root yields the list with the
+entries 0 and `r` (the root's first position) exchanged — same length, the root first, the old first entry at `r`,
+every other entry in place — and the complete `N`-ary tree over it rooted at its first entry.  Falsified by: a guard
+that lets a non-member through (seed C12r7-A: the old order, a tree rooted at the old first member), a rotation instead
+of the exchange, an exchange with the last match. -/
+theorem c12_withroot_tree (N : Nat) (keys : List Nat) (k : Nat) (hN : 1 ≤ N) :
+    (k ∉ keys → withRootKeys keys k = none ∧ genWithRootRoster N keys k = .noTree) ∧
+    (k ∈ keys → ∃ r keys', r < keys.length ∧ keys.getD r 0 = k ∧ (∀ j, j < r → keys.getD j 0 ≠ k) ∧
+        withRootKeys keys k = some keys' ∧ keys'.length = keys.length ∧ keys'.getD 0 0 = k ∧
+        keys'.getD r 0 = keys.getD 0 0 ∧ (∀ p, p ≠ 0 → p ≠ r → keys'.getD p 0 = keys.getD p 0) ∧
+        genWithRootRoster N keys k = .tree (naryClosed N 0 keys.length)) := by
+  constructor
+  · intro h
+    simp [withRootKeys, genWithRootRoster, search_none h]
+  · intro h
+    obtain ⟨r, hs, hr, hk, hb⟩ := search_some h
+    obtain ⟨l1, l2, l3, l4⟩ := swapAt_zero_getD keys r hr
+    refine ⟨r, swapAt keys 0 r, hr, hk, hb, by simp [withRootKeys, hs], l1, by rw [l2, hk], l3, l4, ?_⟩
+    have hne : swapAt keys 0 r ≠ [] := by
+      intro h0; rw [h0] at l1; simp at l1; omega
+    have := (c12_root_lookup N (swapAt keys 0 r) 0 hN).2.2 hne
+    simp only [genWithRootRoster, withRootKeys, hs, this, l1]
+
+/-- non-vacuity, and the negation witness for the seeded variant: servers 5, 6, 7 with root 7 give the list 7, 6, 5;
+with the stranger 9 there is no roster — not the old list -/
+example : withRootKeys [5, 6, 7] 7 = some [7, 6, 5] ∧ withRootKeys [5, 6, 7] 9 = none ∧
+    withRootKeys [5, 6, 7] 9 ≠ some [5, 6, 7] ∧ genWithRootRoster 2 [5, 6, 7] 9 = .noTree := by decide
+
 /-- **pairwise distinct node identifiers**: over a roster of pairwise distinct servers the nodes of
 the generated tree carry pairwise distinct ids, and the ids are exactly the servers' (every server
 hosts one node) -/
